@@ -191,7 +191,7 @@ def checks(quick, rng):
         out.append("String.from(%s).len()" % v)
     # escapes in literals (valid ones; invalid ones are separate programs)
     for e in ["\\n", "\\t", "\\r", "\\a", "\\b", "\\f", "\\v", "\\0", "\\\\", "\\\"", "\\$", "\\x41", "\\x7f", "\\x80", "\\xbf", "\\xc0", "\\xe9", "\\xff",
-              "\\u00e9" if False else "\\uc3a9", "\\ue282", "\\U00000041" if False else "\\Uf09f9880", "\\u4142", "\\xe9\\xe9", "a\\x41b"]:
+              "\\uc3a9", "\\Uf09f9880", "\\u4142", "\\xe9\\xe9", "a\\x41b"]:
         out.append("\"%s\".to_bytes()" % e)
         out.append("\"%s\".len()" % e)
     return out
@@ -199,7 +199,7 @@ def checks(quick, rng):
 
 INVALID_LITERALS = [("\"\\q\"", "Invalid escape sequence."), ("\"\\x4\"", "Invalid hexadecimal sequence."), ("\"\\xZZ\"", "Invalid hexadecimal sequence."),
                     ("\"\\u00e9\"", "Invalid Unicode sequence."), ("\"\\uZZZZ\"", "Invalid Unicode sequence."), ("\"\\U00000041\"", None),
-                    ("\"\\u12\"", "Invalid Unicode sequence."), ("\"abc", "Unterminated string."), ("\"${1\"", None), ("\"$x\"", "Expected '{' in string interpolation.")]
+                    ("\"\\u12\"", "Invalid Unicode sequence."), ("\"\\ue282\"", "Invalid Unicode sequence."), ("\"abc", "Unterminated string."), ("\"${1\"", None), ("\"$x\"", "Expected '{' in string interpolation.")]
 
 
 def run(tier):
@@ -221,6 +221,10 @@ def run(tier):
     def seen(p, m, res):
         v = m["view"][0]
         n = len(p.get("exprs", [])) or 1
+        if p.get("exprs") and v.get("res") == "compile_error":
+            # one expression that does not compile silences every other check of its batch: that is a defect of the battery
+            ck.inconclusive.append("battery %s does not compile (%s): none of its %d checks ran" % (p["name"], v.get("msg"), n))
+            return
         ck.count("individual_checks", n)
         for e in p.get("exprs", []) or [p["steps"][0][1]]:
             ck.note_nontrivial(e)
